@@ -288,6 +288,11 @@ func (e *c04Env) str(minChars, maxChars int, safe bool) string {
 			multi = true
 		}
 	}
+	if !safe && n == maxChars && n > 0 && n <= 4096 && s.flag() {
+		// the documented limits count characters; decoders allow 4 bytes per character
+		pat, plen, multi = []string{"😀"}, 1, true
+		e.label("max-chars-of-4-byte-runes")
+	}
 	if multi && n > 0 {
 		e.label("multibyte-string")
 	}
